@@ -59,10 +59,9 @@ func zzC01FS() *zzFS {
 	})
 }
 
-func zzC01Render(k int, val string) (string, error) {
-	tpl := NewFS(zzC01FS())
+func zzC01Render(entry, k int, val string) (string, error) {
 	data := map[string]any{"val": val, "ok": true, "no": false, "items": []string{val, "w"}, "k": "QQQ", "w": "word"}
-	return zzRender(tpl, zzC01Sinks[k], data)
+	return zzRenderVia(entry, zzC01FS(), nil, zzC01Sinks[k], data)
 }
 
 // VerifC01_SinkShape: token structure with an arbitrary value equals the
@@ -71,9 +70,10 @@ func VerifC01_SinkShape() {
 	k := zzChoice("sink", len(zzC01Sinks))
 	n := zzBound("N", 3, 5)
 	val := zzStringIn("val", n, zzC01Hostile)
-	base, err0 := zzC01Render(k, "word")
+	entry := zzEntry()
+	base, err0 := zzC01Render(entry, k, "word")
 	zzAssert(err0 == nil, "C01.sink.baseline-renders")
-	out, err := zzC01Render(k, val)
+	out, err := zzC01Render(entry, k, val)
 	zzAssert(err == nil, "C01.sink.render-error")
 	zzCover(len(val) == n, "full-length value reaches the sink")
 	zzNote("template", zzC01Sinks[k])
@@ -92,7 +92,7 @@ func VerifC01_Mustache() {
 	n := zzBound("N", 5, 7)
 	val := zzStringIn("val", n, "{}k ")
 	zzAssume(zzContains(val, "{{"))
-	out, err := zzC01Render(k, val)
+	out, err := zzC01Render(zzEntry(), k, val)
 	zzNote("template", zzC01Sinks[k])
 	zzNote("out", out)
 	if err != nil {
